@@ -139,6 +139,11 @@ func GenC18(seed, run uint64, tier, mode string) *plan.Plan {
 	switch r.Intn(8) {
 	case 0:
 		maxPrec = 60
+		if r.Chance(1, 3) {
+			// occasionally very high precision: internal tables and constants
+			// have precision-dependent paths (constWithPrecision, table misses)
+			maxPrec = 200
+		}
 	case 1, 2:
 		maxPrec = 34
 	case 3:
@@ -171,6 +176,61 @@ func GenC18(seed, run uint64, tier, mode string) *plan.Plan {
 	maxSteps := 60
 	if tier == "thorough" {
 		maxSteps = 120
+	}
+	if mode == "sync" {
+		// focus on synchronised-but-wrong shared state: few contexts at
+		// distinct high precisions, few tasks, short programs of operations that
+		// reach the package's tables and constants, operands with large
+		// exponent gaps; the schedule aims at the yields right after lock
+		// sections and atomics (see genSchedule)
+		p.Contexts = nil
+		precs := []uint32{34, 60, 100, 130, 200, 130, 200}
+		nc := r.Range(2, 3)
+		for i := 0; i < nc; i++ {
+			pc := precs[r.Intn(len(precs))]
+			p.Contexts = append(p.Contexts, plan.Ctx{P: pc, Emax: 100000, Emin: -100000, Traps: 0, Round: RounderNames[r.Intn(len(RounderNames))]})
+		}
+		p.Shared = nil
+		nshared = r.Range(3, 6)
+		for i := 0; i < nshared; i++ {
+			d := GenDec(r, true)
+			if r.Chance(1, 2) {
+				d = plan.Dec{Coeff: randDigits(r, 1+r.Intn(30)), Exp: int32(r.Range(-3000, 3000))}
+			}
+			p.Shared = append(p.Shared, d)
+		}
+		k = r.Range(2, 3)
+		heavy := []string{"Ln", "Log10", "Pow", "Exp", "Quo", "Add", "Sub", "Cbrt", "Sqrt", "Mul", "Rem", "QuoInteger", "Round", "Quantize", "String", "DCmp"}
+		for t := 0; t < k; t++ {
+			var tk plan.Task
+			nregs := 3
+			for i := 0; i < nregs; i++ {
+				tk.Regs = append(tk.Regs, GenDec(r, false))
+			}
+			n := r.Range(2, 8)
+			for i := 0; i < n; i++ {
+				st := plan.Step{Op: heavy[r.Intn(len(heavy))], Ctx: r.Intn(len(p.Contexts)), D: fmt.Sprintf("r%d", r.Intn(nregs))}
+				st.X = fmt.Sprintf("s%d", r.Intn(nshared))
+				st.Y = fmt.Sprintf("s%d", r.Intn(nshared))
+				if r.Chance(1, 4) {
+					st.X = fmt.Sprintf("r%d", r.Intn(nregs))
+				}
+				def := Ops[st.Op]
+				switch def.Kind {
+				case KCtx2, KRead1:
+					st.Y = ""
+				case KCtxQ:
+					st.Y = ""
+					st.N = int64(r.Range(-12, 6))
+				}
+				if def.Kind == KRead1 || def.Kind == KRead2 {
+					st.D = ""
+				}
+				tk.Steps = append(tk.Steps, st)
+			}
+			p.Tasks = append(p.Tasks, tk)
+		}
+		return p
 	}
 	heavyShare := r.Intn(4) // 0: no heavy ops in this run
 	for t := 0; t < k; t++ {
@@ -258,6 +318,7 @@ type stepBase struct {
 	steps uint64 // yields of this step in the solo run
 	start uint64 // yield index at which the step starts (local to the task)
 	hot   []uint64
+	sync  []uint64 // yields right after a synchronising statement (lock section, atomic, once)
 }
 
 // C18Stats are measured per run.
@@ -325,6 +386,13 @@ func runC18(p *plan.Plan, keepLog bool, soloOnly bool) (*plan.Result, *C18Stats)
 	theWorld = w
 	defer func() { theWorld = nil }()
 	gs := globalSnap
+	if p.Mode == "sync" && nSyncSites == 0 {
+		// the tree under test has no lock, once or atomic: nothing to aim at
+		res.Stats["skipped_no_sync_sites"] = 1
+		res.Sig = planSig(p)
+		res.Digest = "nosync"
+		return res, stats
+	}
 
 	addViol := func(v plan.Violation) {
 		res.Violations = append(res.Violations, v)
@@ -365,13 +433,14 @@ func runC18(p *plan.Plan, keepLog bool, soloOnly bool) (*plan.Result, *C18Stats)
 				}
 				tr.env.Resolve(st, &a)
 				sHotSteps = sHotSteps[:0]
+				sSyncSteps = sSyncSteps[:0]
 				beginOp(soloOpCap)
 				o := Exec(def, &a)
 				n := opSteps()
 				if o.Hang || local+n > soloRunCap {
 					return false, false
 				}
-				tr.base[si] = stepBase{out: o, steps: n, start: local, hot: append([]uint64(nil), sHotSteps...)}
+				tr.base[si] = stepBase{out: o, steps: n, start: local, hot: append([]uint64(nil), sHotSteps...), sync: append([]uint64(nil), sSyncSteps...)}
 				local += n
 			}
 		}
@@ -667,7 +736,39 @@ func genSchedule(p *plan.Plan, runs []*c18TaskRun) *plan.Schedule {
 		}
 		return o
 	}
-	if r.Chance(1, 2) {
+	// check-then-act windows: yields right after a lock section / atomic
+	type target struct {
+		task int
+		at   uint64
+	}
+	var syncTargets []target
+	for t, tr := range runs {
+		for _, b := range tr.base {
+			for _, s := range b.sync {
+				if len(syncTargets) < 4096 {
+					syncTargets = append(syncTargets, target{t, b.start + s})
+				}
+			}
+		}
+	}
+	aimSync := func(n int) {
+		for i := 0; i < n && len(syncTargets) > 0; i++ {
+			tg := syncTargets[r.Intn(len(syncTargets))]
+			at := tg.at + uint64(r.Intn(2))
+			if at == 0 {
+				at = 1
+			}
+			sch.Preempt = append(sch.Preempt, plan.Preempt{Task: tg.task, At: at, To: other(tg.task)})
+		}
+	}
+	if p.Mode == "sync" {
+		aimSync(4 + r.Intn(24))
+	} else if len(syncTargets) > 0 {
+		aimSync(r.Intn(8))
+	}
+	if p.Mode == "sync" && r.Chance(2, 3) {
+		// only the aimed preemptions
+	} else if r.Chance(1, 2) {
 		// few, aimed preemptions
 		n := r.Intn(13)
 		for i := 0; i < n; i++ {
